@@ -371,6 +371,12 @@ let nonce_line l =
   print_endline (String.concat "" (List.map (fun b -> if b then "1" else "0") outs) ^ " | " ^
     String.concat " ; " (List.map (fun r -> String.concat "," (List.map string_of_int (List.sort compare (List.map int_of_nat r)))) regs))
 
+(* nolint case (directive text, model M12): the bytes of the comment text, space separated -> 1 | 0 *)
+let nolint_line l =
+  (* the first number is a marker (so that the empty text is not an empty line) *)
+  let bytes = match ints_of_line l with _ :: b -> b | [] -> [] in
+  print_endline (if nolint_contains (List.map nat_of_int bytes) then "1" else "0")
+
 let () =
   let mode = if Array.length Sys.argv > 1 then Sys.argv.(1) else "engine" in
   try
@@ -387,6 +393,7 @@ let () =
          | "keys" -> keys_line l
          | "infer" -> infer_line l
          | "nonce" -> nonce_line l
+         | "nolint" -> nolint_line l
          | _ -> failwith "unknown mode")
     done
   with End_of_file -> ()
